@@ -76,7 +76,7 @@ Definition set_hash (w : ws) (h : list (N * N)) : ws := mkWs (w_buf w) (w_shim w
    Array: `end = len + slice.len(); if end > N { Err }` (nothing appended).
    StreamTarget: inner append, then update_shim; when the length no longer
    fits a u16 the data STAYS appended and the shim is not rewritten. *)
-Definition inner_len (c : tcfg) (b : bytes) : N := mlen b + (if t_stream c then 2 else 0).
+Definition inner_len (c : tcfg) (b : bytes) : N := mlen b + (if t_stream c then stream_prefix_len else 0).
 Definition append_slice (c : tcfg) (s : bytes) (w : ws) : wres :=
   let fits := match t_cap c with Some n => inner_len c (w_buf w) + mlen s <=? n | None => true end in
   if negb fits then WErr w else
@@ -385,7 +385,10 @@ Fixpoint compose_opts (c : tcfg) (opts : list (N * N * bytes)) (w : ws) : wres :
 (* what the closure given to AdditionalBuilder::opt sets in the OPT header:
    set_udp_payload_size, optionally set_rcode (12 bit extended rcode), then
    set_version and set_dnssec_ok *)
-Record opt_hdr := mkOH { oh_udp : N; oh_rc : option N; oh_ver : N; oh_do : bool }.
+Record opt_hdr := mkOH {
+  oh_udp : N; oh_rc : option N; oh_ver : N;
+  oh_flags : N;       (* the 16 flag bits: 0x8000 from set_dnssec_ok(true); any value from clone_from *)
+  oh_hdr : bool }.    (* set_rcode also writes the header RCODE (true); clone_from(OptRecord) leaves the header alone *)
 Definition oh_ext (oh : opt_hdr) : N := match oh_rc oh with Some v => (v / 16) mod 256 | None => 0 end.
 
 Definition compose_opt (c : tcfg) (oh : opt_hdr) (opts : list (N * N * bytes)) (w : ws) : wres :=
@@ -395,7 +398,7 @@ Definition compose_opt (c : tcfg) (oh : opt_hdr) (opts : list (N * N * bytes)) (
     let pos := mlen (w_buf w2) in
     (* set_udp_payload_size: inner[3..5]; set_rcode: inner[5] = ext; set_version:
        inner[6]; set_dnssec_ok: inner[7] |= 0x80 (all octets were zero) *)
-    let w3 := set_buf w2 (patch16 (start + 7) (if oh_do oh then 32768 else 0)
+    let w3 := set_buf w2 (patch16 (start + 7) (oh_flags oh)
                            (patch16 (start + 5) (oh_ext oh * 256 + oh_ver oh)
                              (patch16 (start + 3) (oh_udp oh) (w_buf w2)))) in
     match compose_opts c opts w3 with
@@ -457,6 +460,67 @@ Definition mb_push (c : tcfg) (s : bstate) (f : ws -> wres) : bstate * rword :=
       else (set_count (set_w s w) (count_of s + 1), ROk)
   end.
 
+(* the header fields the setters of base/header.rs take *)
+Record hfields := mkHF {
+  hf_id : N; hf_qr : bool; hf_opcode : N; hf_aa : bool; hf_tc : bool; hf_rd : bool;
+  hf_ra : bool; hf_z : bool; hf_ad : bool; hf_cd : bool; hf_rcode : N }.
+
+(* self.inner[off] = f(self.inner[off]) *)
+Fixpoint upd_nth (h : bytes) (off : nat) (f : N -> N) : bytes :=
+  match h, off with
+  | [], _ => []
+  | x :: r, O => f x :: r
+  | x :: r, S k => x :: upd_nth r k f
+  end.
+(* Header::set_bit(offset, bit, set): |= 1 << bit  or  &= !(1 << bit), on a u8 *)
+Definition hdr_set_bit (h : bytes) (ob : N * N) (v : bool) : bytes :=
+  upd_nth h (N.to_nat (fst ob))
+    (fun b => if v then N.lor b (2 ^ snd ob) else N.land b (255 - 2 ^ snd ob)).
+(* set_opcode: inner[o] = inner[o] & keep | (opcode << shift) *)
+Definition hdr_set_opcode (h : bytes) (op : N) : bytes :=
+  let '(o, keep, sh) := hb_opcode in
+  upd_nth h (N.to_nat o) (fun b => N.lor (N.land b keep) (N.land (N.shiftl op sh) 255)).
+(* set_rcode: inner[o] = inner[o] & keep | (rcode & mask) *)
+Definition hdr_set_rcode_bits (h : bytes) (rc : N) : bytes :=
+  let '(o, keep, mask) := hb_rcode in
+  upd_nth h (N.to_nat o) (fun b => N.lor (N.land b keep) (N.land rc mask)).
+(* set_id: inner[..2] = value.to_be_bytes() *)
+Definition hdr_set_id (h : bytes) (id : N) : bytes :=
+  match h with a :: b :: r => (id / 256) mod 256 :: id mod 256 :: r | _ => h end.
+
+(* one call of a setter of base/header.rs *)
+Inductive hflag := FQr | FAa | FTc | FRd | FRa | FZ | FAd | FCd.
+Inductive hset := HId (id : N) | HFlag (fl : hflag) (v : bool) | HOpcode (op : N) | HRcode (rc : N).
+Definition flag_pos (fl : hflag) : N * N :=
+  match fl with
+  | FQr => hb_qr | FAa => hb_aa | FTc => hb_tc | FRd => hb_rd
+  | FRa => hb_ra | FZ => hb_z | FAd => hb_ad | FCd => hb_cd
+  end.
+Definition hdr_set1 (h : bytes) (x : hset) : bytes :=
+  match x with
+  | HId id => hdr_set_id h id
+  | HFlag fl v => hdr_set_bit h (flag_pos fl) v
+  | HOpcode op => hdr_set_opcode h op
+  | HRcode rc => hdr_set_rcode_bits h rc
+  end.
+Definition hdr_sets (h : bytes) (l : list hset) : bytes := fold_left hdr_set1 l h.
+
+(* all setters, in the order the harness calls them *)
+Definition sets_of_fields (f : hfields) : list hset :=
+  [HId (hf_id f); HFlag FQr (hf_qr f); HOpcode (hf_opcode f); HFlag FAa (hf_aa f); HFlag FTc (hf_tc f);
+   HFlag FRd (hf_rd f); HFlag FRa (hf_ra f); HFlag FZ (hf_z f); HFlag FAd (hf_ad f); HFlag FCd (hf_cd f);
+   HRcode (hf_rcode f)].
+Definition hdr_apply (h : bytes) (f : hfields) : bytes := hdr_sets h (sets_of_fields f).
+
+(* RFC 1035 4.1.1: the fields of four header octets *)
+Definition fields_of_octets (h : bytes) : hfields :=
+  match h with
+  | [a; b; f; d] =>
+      mkHF (a * 256 + b) (N.testbit f 7) ((f / 8) mod 16) (N.testbit f 2) (N.testbit f 1) (N.testbit f 0)
+           (N.testbit d 7) (N.testbit d 6) (N.testbit d 5) (N.testbit d 4) (d mod 16)
+  | _ => mkHF 0 false 0 false false false false false false false 0
+  end.
+
 Inductive op :=
 | OpQ (q : question)
 | OpR (r : rrecord)
@@ -465,7 +529,7 @@ Inductive op :=
 | OpBack                  (* AdditionalBuilder::authority / AuthorityBuilder::answer / AnswerBuilder::question *)
 | OpRewind                (* <Section>Builder::rewind *)
 | OpLimit (l : option N)  (* set_push_limit / clear_push_limit *)
-| OpHdr (h : bytes).      (* header_mut() setters: the four header octets afterwards *)
+| OpHdr (l : list hset).  (* these setters of header_mut(), in this order *)
 (* every other conversion is, in the code, a composition of these:
    x.additional() = x.answer().authority().additional(), x.question() from
    additional = authority().answer().question(), builder() = question() then
@@ -513,7 +577,7 @@ Definition step_gen (restore : bool) (c : tcfg) (s : bstate) (o : op) : bstate *
       if b_sec s =? 3 then
         let sr := mb_push c s (compose_opt c oh opts) in
         let h1 := match oh_rc oh with
-                  | Some v => if opt_reaches_closure c (b_w s) then hdr_set_rcode (b_hdr s) v else b_hdr s
+                  | Some v => if oh_hdr oh && opt_reaches_closure c (b_w s) then hdr_set_rcode (b_hdr s) v else b_hdr s
                   | None => b_hdr s
                   end in
         let h2 := match snd sr with
@@ -534,7 +598,7 @@ Definition step_gen (restore : bool) (c : tcfg) (s : bstate) (o : op) : bstate *
       match rewind c s with
       | Ok s' => (s', RNone) | Panic site => (s, RPanic site) | _ => (s, RFuel) end
   | OpLimit l => (mkB (b_w s) l (b_qd s) (b_an s) (b_ns s) (b_ar s) (b_sec s) (b_s1 s) (b_s2 s) (b_s3 s) (b_hdr s), RNone)
-  | OpHdr h => (set_hdr s (firstn 4 (h ++ [0; 0; 0; 0])), RNone)
+  | OpHdr l => (set_hdr s (hdr_sets (firstn 4 (b_hdr s ++ [0; 0; 0; 0])) l), RNone)
   end.
 Definition step := step_gen opt_restores_rcode_on_err.
 
@@ -587,7 +651,7 @@ Fixpoint opts_bytes (opts : list (N * N * bytes)) : bytes :=
   | (code, dlen, data) :: r => be16 code ++ be16 dlen ++ data ++ opts_bytes r
   end.
 Definition opt_record (oh : opt_hdr) (opts : list (N * N * bytes)) : rrecord :=
-  mkR [] 41 (oh_udp oh) (oh_ext oh * 16777216 + oh_ver oh * 65536 + (if oh_do oh then 32768 else 0)) true
+  mkR [] 41 (oh_udp oh) (oh_ext oh * 16777216 + oh_ver oh * 65536 + oh_flags oh) true
       [RBytes (opts_bytes opts)].
 
 Definition acc_clear_sec (a : acc) (k : N) : acc :=
@@ -737,12 +801,100 @@ Definition acc_eqb (a b : acc) : bool :=
   all2 question_eqb (a_q a) (a_q b) && all2 record_eqb (a_an a) (a_an b) &&
   all2 record_eqb (a_ns a) (a_ns b) && all2 record_eqb (a_ar a) (a_ar b).
 
+(* ------------------------------------------------- composite operations *)
+(* Conversions and the convenience constructors of MessageBuilder are, in the
+   code, compositions of the operations above (T1: conversions_anchored,
+   start_helpers_anchored).  They are given by the list of primitive operations
+   they perform from the current state, which is then run. *)
+
+Inductive xop :=
+| XPrim (o : op)
+| XGoto (k : N)                 (* .question() / .answer() / .authority() / .additional() *)
+| XBuilder                      (* .builder().question() *)
+| XStart (kind : N) (id opcode : N) (rd : bool) (rcode : N) (qs : list question).
+  (* kind 0: .builder().start_answer(&query, rcode); 1: .builder().start_error(&query, rcode);
+     2: .builder().request_axfr(apex) followed by set_id(id) (the id it draws is random);
+     id, opcode, rd and the questions are those of the query *)
+
+(* builder.push(item)? for every question: the pushes made, and the error that stopped them *)
+Fixpoint start_qs (c : tcfg) (s : bstate) (qs : list question) : list op * option N :=
+  match qs with
+  | [] => ([], None)
+  | q :: r =>
+      match step c s (OpQ q) with
+      | (s', ROk) => let '(l, e) := start_qs c s' r in (OpQ q :: l, e)
+      | (_, RErr e) => ([OpQ q], Some e)
+      | (_, _) => ([OpQ q], None)
+      end
+  end.
+
+Definition servfail : N := 2.
+
+(* the primitive operations of a composite one, and whether the builder is gone afterwards *)
+Definition expand (c : tcfg) (s : bstate) (x : xop) : list op * bool :=
+  match x with
+  | XPrim o => ([o], false)
+  | XGoto k => (conv_ops (b_sec s) (N.min k 3), false)
+  | XBuilder => (builder_ops (b_sec s), false)
+  | XStart kind id opcode rd rcode qs =>
+      let sets := if kind =? 2 then [HId id]     (* set_random_id, then the harness' set_id *)
+                  else [HId id; HFlag FQr true; HOpcode opcode; HFlag FRd rd; HRcode rcode] in
+      let pre := builder_ops (b_sec s) ++ [OpHdr sets] in
+      let s1 := fst (run c s pre) in
+      (* request_axfr asks one question: (apex, AXFR, IN), apex = the name of the first one given *)
+      let qs' := if kind =? 2 then [mkQ (match qs with q :: _ => q_name q | [] => [] end) 252 1] else qs in
+      let '(lq, e) := start_qs c s1 qs' in
+      match e with
+      | None => (pre ++ lq ++ [OpNext], false)
+      | Some _ =>
+          if kind =? 1 then (pre ++ lq ++ [OpHdr [HRcode servfail]; OpNext], false)   (* start_error *)
+          else (pre ++ lq, true)                                                    (* `?`: the builder is dropped *)
+      end
+  end.
+
+Definition first_err (ws : list rword) : option N :=
+  match find (fun w => match w with RErr _ => true | _ => false end) ws with
+  | Some (RErr e) => Some e
+  | _ => None
+  end.
+
+(* the one result word of a composite operation: a panic if there was one;
+   start_answer / request_axfr answer with the error of the failing push *)
+Definition collapse (x : xop) (ws : list rword) : rword :=
+  match find is_dead ws with
+  | Some w => w
+  | None =>
+      match x with
+      | XPrim _ => match ws with [w] => w | _ => RNone end
+      | XStart kind _ _ _ _ _ =>
+          if kind =? 1 then RNone
+          else match first_err ws with Some e => RErr e | None => ROk end
+      | _ => RNone
+      end
+  end.
+
+Fixpoint xrun (c : tcfg) (s : bstate) (a : acc) (xs : list xop) : bstate * acc * list rword * bool :=
+  match xs with
+  | [] => (s, a, [], false)
+  | x :: r =>
+      let '(ops, lost) := expand c s x in
+      let '(s1, a1, ws) := run_acc c s a ops in
+      let w := collapse x ws in
+      if is_dead w || lost then (s1, a1, [w], lost)
+      else let '(s2, a2, ws2, l2) := xrun c s1 a1 r in (s2, a2, w :: ws2, l2)
+  end.
+
 (* -------------------------------------------- entry points for the driver *)
 
 Definition c02_run (c : tcfg) (ops : list op) : option (bstate * acc * list rword) :=
   match init c with
   | None => None
   | Some s => Some (run_acc c s acc0 ops)
+  end.
+Definition c02_xrun (c : tcfg) (xs : list xop) : option (bstate * acc * list rword * bool) :=
+  match init c with
+  | None => None
+  | Some s => Some (xrun c s acc0 xs)
   end.
 Definition c02_msg (c : tcfg) (s : bstate) : bytes :=
   if t_stream c then stream_of s else msg_of s.
